@@ -1,0 +1,26 @@
+//go:build verif
+
+// Package verifhook provides scheduling seams for deterministic simulation.
+// With the "verif" build tag a harness may install Hook/NoteHook; when they are nil
+// the functions do nothing.
+package verifhook
+
+// Hook, when set, is called at every Yield point and may block the calling goroutine.
+var Hook func(point, key string)
+
+// NoteHook, when set, is called at every Note point and must not block.
+var NoteHook func(point, key string)
+
+// Yield marks a point at which a simulator may decide which goroutine proceeds.
+func Yield(point, key string) {
+	if h := Hook; h != nil {
+		h(point, key)
+	}
+}
+
+// Note records an event for a simulator without ever blocking.
+func Note(point, key string) {
+	if h := NoteHook; h != nil {
+		h(point, key)
+	}
+}
